@@ -361,9 +361,43 @@ class Body:
     _TRACK = ("std::result::Result<", "std::option::Option<", "std::ops::ControlFlow<")
 
     def _tracked(self, l):
-        return self.locals[l]["ty"].startswith(self._TRACK)
+        ty = self.locals[l]["ty"]
+        if ty.startswith(self._TRACK):
+            return True
+        return ty == "bool" and l in self._bool_rets
+
+    def _compute_bool_rets(self):
+        """bool-typed return places of inlined instances and the locals their value is moved into."""
+        rets = {l for l in self.fn.get("ret_locals", []) if l != 0 and self.locals[l]["ty"] == "bool"}
+        out = set(rets)
+        for b in self.blocks:
+            if b["cleanup"]:
+                continue
+            for st in b["stmts"]:
+                if st["k"] == "assign" and st.get("synthetic") == "return" and not st["dst"]["p"]:
+                    src = op_place(st["rv"]["op"])
+                    if src is not None and src["l"] in rets and self.locals[st["dst"]["l"]]["ty"] == "bool":
+                        out.add(st["dst"]["l"])
+        # bool temporaries that only ever receive constants (the lowering of `matches!`, `&&`, `||`): their value is the
+        # path taken; they die at the switch that consumes them
+        const_only = {}
+        for b in self.blocks:
+            if b["cleanup"]:
+                continue
+            for st in b["stmts"]:
+                if st["k"] == "assign" and not st["dst"]["p"] and self.locals[st["dst"]["l"]]["ty"] == "bool":
+                    l = st["dst"]["l"]
+                    c = op_const(st["rv"]["op"]) if st["rv"]["k"] == "use" else None
+                    const_only[l] = const_only.get(l, True) and c is not None and "int" in c
+            t = b["term"]
+            if t and t["k"] == "call" and not t["dst"]["p"] and self.locals[t["dst"]["l"]]["ty"] == "bool":
+                const_only[t["dst"]["l"]] = False
+        out |= {l for l, v in const_only.items() if v and not self.locals[l].get("name")}
+        return out
 
     def _build_exploded(self):
+        self._bool_rets = set()
+        self._bool_rets = self._compute_bool_rets()
         tainted = set()
         for b in self.blocks:
             if b["cleanup"]:
@@ -423,6 +457,8 @@ class Body:
                 continue
             if rv["k"] == "agg" and rv.get("agg") == "adt":
                 st[l] = rv["variant"]
+            elif rv["k"] == "use" and op_const(rv["op"]) is not None and self.locals[l]["ty"] == "bool" and "int" in op_const(rv["op"]):
+                st[l] = "true" if op_const(rv["op"])["int"] else "false"
             elif rv["k"] == "use":
                 q = op_place(rv["op"])
                 if q is not None and not q["p"] and q["l"] in st:
@@ -466,12 +502,16 @@ class Body:
         if k == "switch":
             dp = op_place(t["discr"])
             known = None
+            if dp is not None and not dp["p"] and dp["l"] in st and self.locals[dp["l"]]["ty"] == "bool":
+                known = 1 if st[dp["l"]] == "true" else 0
             if dp is not None and not dp["p"] and dp["l"] in discr_of:
                 src, variants = discr_of[dp["l"]]
                 if src in st:
                     for (val, name) in variants:
                         if name == st[src]:
                             known = val
+            if "move" in t["discr"] and dp is not None and not dp["p"]:
+                st.pop(dp["l"], None)
             for j, (tb, lab) in enumerate(self.succ[b]):
                 if known is not None:
                     if lab[0] == "sw" and lab[1] != known:
